@@ -39,6 +39,9 @@ type CtrlRec struct {
 	ErrCode  int64 // -1 unset
 	Value    string
 	HasValue bool
+	// GldapEnc: put the control on the wire as gldap's own Encode() produces it
+	// (C14: what gldap encodes, gldap's request decoder must recover)
+	GldapEnc bool
 }
 
 func (c CtrlRec) String() string {
@@ -101,6 +104,11 @@ type ReqRec struct {
 // ---- encoding (client side, RFC 4511) ---------------------------------------
 
 func (c CtrlRec) tlv() *TLV {
+	if c.GldapEnc {
+		if gc, err := MakeControl(c); err == nil && gc != nil {
+			return &TLV{Cls: -1, Val: gc.Encode().Bytes()}
+		}
+	}
 	oid := c.OID
 	if o, ok := kindOID[c.Kind]; ok {
 		oid = o
@@ -790,6 +798,8 @@ func GoLdapControls(frame []byte) (recs []CtrlRec, ok bool, why string) {
 type Gen struct {
 	Ch   *Chooser
 	Big  bool // allow values beyond 64 KiB
+	// GldapEncPct: share of request controls encoded by gldap's own Encode
+	GldapEncPct int
 	used map[int64]bool
 	next int64
 }
@@ -976,6 +986,13 @@ func (g *Gen) Control() CtrlRec {
 	}
 	if o, ok := kindOID[c.Kind]; ok {
 		c.OID = o
+	}
+	if c.Kind == "string" && !c.Crit && g.Ch.Choose(4) == 3 {
+		c.ExplCrit = true // criticality FALSE spelled out: valid BER
+	}
+	c.GldapEnc = g.GldapEncPct > 0 && g.Ch.Choose(100) < g.GldapEncPct
+	if c.GldapEnc {
+		c.ExplCrit = false
 	}
 	return c
 }
